@@ -76,7 +76,7 @@ def apply(F):
 ''')
     F.contract([], r'fn mix_nonce<A: Aead>', ret='r', attrs=['#[verifier::external_body]'], discharged_by='kani:mix_nonce_full', clauses='''
     requires /*@C13*/ 8 <= nn_of::<A::AeadImpl>(),
-    ensures /*@C04 C02*/ r.0.gv() == compute_nonce_spec(base_nonce.0.gv(), seq.0 as nat),
+    ensures /*@C04 C02 C05*/ r.0.gv() == compute_nonce_spec(base_nonce.0.gv(), seq.0 as nat),
 ''')
     F.wrap([], r'fn increment_seq\b', upto_rx=r'fn mix_nonce<A: Aead>')
 
